@@ -1,6 +1,7 @@
 package gen
 
 import (
+	"math"
 	"math/rand"
 
 	"github.com/golang/geo/s2"
@@ -86,6 +87,80 @@ func walk(r *rand.Rand, start s2.Point, n int, step float64) []s2.Point {
 		vs = append(vs, nx)
 	}
 	return vs
+}
+
+// ArealObj wraps rings (each a simple CCW loop; a point is inside iff an odd number of rings enclose it)
+// as one of the four areal shape types.
+func ArealObj(r *rand.Rand, ls [][]s2.Point) *Obj {
+	o := &Obj{Dim: 2, Loops: ls}
+	for _, l := range ls {
+		o.Rings = append(o.Rings, ref.NewLoopModel(Vs(l), V(s2.OriginPoint()), RefDir))
+		o.Vertices = append(o.Vertices, l...)
+	}
+	mkPoly := func() *s2.Polygon {
+		var x []*s2.Loop
+		for _, j := range r.Perm(len(ls)) {
+			x = append(x, s2.LoopFromPoints(append([]s2.Point(nil), ls[j]...)))
+		}
+		return s2.PolygonFromLoops(x)
+	}
+	k := r.Intn(4)
+	switch {
+	case k == 0 && len(ls) == 1:
+		o.Shape, o.Kind = s2.LoopFromPoints(append([]s2.Point(nil), ls[0]...)), "Loop"
+	case k == 1 && len(ls) == 1:
+		o.Shape, o.Kind = s2.LaxLoopFromPoints(append([]s2.Point(nil), ls[0]...)), "LaxLoop"
+	case k <= 2:
+		o.Shape, o.Kind = mkPoly(), "Polygon"
+	default:
+		o.Shape, o.Kind = s2.LaxPolygonFromPolygon(mkPoly()), "LaxPolygon"
+	}
+	return o
+}
+
+// Islands returns k disjoint small star-shaped loops on a circle of the given radius around ctr.
+func Islands(r *rand.Rand, ctr s2.Point, radius float64, k int) [][]s2.Point {
+	x, y, z := Frame(ctr)
+	var ls [][]s2.Point
+	ir := radius * math.Sin(math.Pi/float64(k)) * 0.7
+	for j := 0; j < k; j++ {
+		c := AtPolar(x, y, z, radius, 2*math.Pi*float64(j)/float64(k))
+		ls = append(ls, StarLoop(r, c, 3+r.Intn(6), ir*0.6, ir).Vs)
+	}
+	return ls
+}
+
+// VerticesAtIndexCellCentres moves up to three vertices of a star-shaped loop onto the centre of the index
+// cell that holds them (as long as the loop stays star-shaped), so that the segment "cell centre -> query
+// point" used by indexed containment starts exactly at a vertex. It returns the index cells whose centre
+// is a vertex in the final loop's own index.
+func VerticesAtIndexCellCentres(r *rand.Rand, sp LoopSpec) (LoopSpec, []s2.CellID) {
+	for round := 0; round < 3; round++ {
+		idx := s2.NewShapeIndex()
+		idx.Add(s2.LaxLoopFromPoints(append([]s2.Point(nil), sp.Vs...)))
+		idx.Build()
+		it := idx.Iterator()
+		i := r.Intn(len(sp.Vs))
+		if !it.LocatePoint(sp.Vs[i]) {
+			continue
+		}
+		cand := append([]s2.Point(nil), sp.Vs...)
+		cand[i] = it.CellID().Point()
+		if ok, rmin, rmax := StarOK(sp.Center, cand); ok {
+			sp.Vs, sp.RMin, sp.RMax = cand, rmin, rmax
+		}
+	}
+	idx := s2.NewShapeIndex()
+	idx.Add(s2.LaxLoopFromPoints(append([]s2.Point(nil), sp.Vs...)))
+	idx.Build()
+	it := idx.Iterator()
+	var cells []s2.CellID
+	for _, v := range sp.Vs {
+		if it.LocatePoint(v) && it.CellID().Point() == v {
+			cells = append(cells, it.CellID())
+		}
+	}
+	return sp, cells
 }
 
 func MakeObj(r *rand.Rand, ctr s2.Point, scale float64, maxE int) *Obj {
